@@ -77,6 +77,7 @@ def check_generic(run, prop, fn, only_host=None, replay=None):
         if v == 1: v1.append(c)
         elif v == 2: v2.append(c)
         elif v == 3: v3.append(c)
+        elif v == 101: run.known_seen.setdefault("flat_task_never_evicted", {k: c.get(k) for k in ("idx", "seed", "prog", "handlers", "acts", "impl")})
     key = lambda c: c["size"] + len(c["acts"])
     v1.sort(key=key); v2.sort(key=key)
     slim = lambda c: {k: c.get(k) for k in ("idx", "seed", "host", "prog", "handlers", "acts", "impl", "drained", "enum")}
@@ -189,6 +190,8 @@ def rc_stage(run, prop, count, replay_cases=None):
         cases = [dict(c, size=c.get("size", 4)) for c in replay_cases]
     res = eval_cases(run, prop, cases, "verdicts_RC")
     v1 = [c for c, v in res if v == 1]; v2 = [c for c, v in res if v == 2]; v3 = [c for c, v in res if v == 3]
+    for c, v in res:
+        if v == 101: run.known_seen.setdefault("flat_task_never_evicted", {k: c.get(k) for k in ("idx", "seed", "prog", "handlers", "acts", "impl")})
     key = lambda c: c["size"] + len(c["acts"])
     v1.sort(key=key); v2.sort(key=key)
     slim = lambda c: {k: c.get(k) for k in ("idx", "seed", "host", "prog", "handlers", "acts", "impl")}
